@@ -70,7 +70,13 @@ def run_job(job):
                 "--scenarios", "all", "--jobs", "12", "--target-dir", T if tool == "native" else f"{T}-{tool}"] + job.get("extra", [])
         procs.append(subprocess.Popen(argv, stdout=subprocess.PIPE, stderr=subprocess.PIPE, text=True))
     else:
-        procs.append(subprocess.Popen([exe] + job["args"], stdout=subprocess.PIPE, stderr=subprocess.PIPE, text=True))
+        # "shards": N runs the job like a registered tier does: N processes, seed*1000+i
+        for i in range(job.get("shards", 1)):
+            a = list(job["args"])
+            if "shards" in job:
+                k = a.index("--seed") + 1
+                a[k] = str(int(a[k]) * 1000 + i)
+            procs.append(subprocess.Popen([exe] + a, stdout=subprocess.PIPE, stderr=subprocess.PIPE, text=True))
     return summaries(procs)
 
 
